@@ -192,6 +192,25 @@ exists U_(ord0)%MM; rewrite mcoeff0 mcoeffX eqxx ltr01; split=> // m' /andP[_ ne
 by rewrite mcoeff0 mcoeffX; case: (U_(ord0)%MM =P m') ne => [<-|_ _ //]; rewrite eqxx.
 Qed.
 
+(* D39 (known finding): two operands that SHARE a name tuple stored out of index order are compared by storage column.
+   q1 and q0, both with names (q1, q0), against the same two polynomials with names (q0, q1): the verdicts differ. *)
+Theorem C07_shared_unsorted_names_refuted :
+  let R := [realDomainType of int] in
+  let o := Opts false true true false in
+  let a  : parr R := Parr [:: 1; 0]%N [::] [:: [:: 1; 0]%N] [:: [:: 1]] in
+  let b  : parr R := Parr [:: 1; 0]%N [::] [:: [:: 0; 1]%N] [:: [:: 1]] in
+  let a' : parr R := Parr [:: 0; 1]%N [::] [:: [:: 0; 1]%N] [:: [:: 1]] in
+  let b' : parr R := Parr [:: 0; 1]%N [::] [:: [:: 1; 0]%N] [:: [:: 1]] in
+  [/\ absE 2 a 0 = absE 2 a' 0, absE 2 b 0 = absE 2 b' 0,
+      pcompare gen_less o a b = Ok ([::], [:: true]) & pcompare gen_less o a' b' = Ok ([::], [:: false])].
+Proof.
+move=> R o a b a' b'; split; [| | by vm_compute | by vm_compute].
+- rewrite /absE /absL /terms /= !big_cons !big_nil /absT /=; congr (_ *: 'X_[_] + _).
+  by apply/mnmP => -[[|[|v]] lv] //; rewrite !mnmE.
+- rewrite /absE /absL /terms /= !big_cons !big_nil /absT /=; congr (_ *: 'X_[_] + _).
+  by apply/mnmP => -[[|[|v]] lv] //; rewrite !mnmE.
+Qed.
+
 Print Assumptions C07_alignment_faithful.
 Print Assumptions C07_verdicts.
 Print Assumptions C07_trichotomy.
@@ -214,3 +233,4 @@ Print Assumptions C07_maximum.
 Print Assumptions C07_minimum.
 Print Assumptions C07_transitive.
 Print Assumptions C07_asymmetric.
+Print Assumptions C07_shared_unsorted_names_refuted.
